@@ -11,6 +11,8 @@
 #include <parmcb/detail/verif.hpp>
 
 #include <functional>
+#include <iterator>
+#include <list>
 #include <numeric>
 
 #ifdef PARMCB_HAVE_TBB
@@ -240,6 +242,17 @@ private:
 
 };
 
+/*
+ * The exact algorithm runs on the internal spanner, thus its cycles are
+ * collected internally in order to be translated to edges of the input graph.
+ */
+template<class Graph>
+struct SpannerCycles {
+    typedef typename boost::graph_traits<Graph>::edge_descriptor Edge;
+    typedef std::list<std::list<Edge>> container;
+    typedef std::back_insert_iterator<container> iterator;
+};
+
 template<class Graph, class WeightMap, typename ExactAlgorithm,
         bool ParallelUsingTBB>
 class BaseApproxSpannerAlgorithm {
@@ -280,7 +293,20 @@ public:
         EdgeWeightMapType spanner_weight_map = get(boost::edge_weight,
                 _spanner);
         ExactAlgorithm exact_mcb_algo;
-        _weight += exact_mcb_algo(_spanner, spanner_weight_map, out);
+        typename SpannerCycles<Graph>::container spanner_cycles;
+        exact_mcb_algo(_spanner, spanner_weight_map,
+                std::back_inserter(spanner_cycles));
+
+        // translate spanner cycles to cycles of the input graph
+        for (const auto &spanner_cycle : spanner_cycles) {
+            std::list<Edge> cycle_edgelist;
+            for (const auto &spanner_e : spanner_cycle) {
+                Edge e = _edge_spanner_to_g.at(spanner_e);
+                cycle_edgelist.push_back(e);
+                _weight += boost::get(_weight_map, e);
+            }
+            *out++ = cycle_edgelist;
+        }
 
         // compute remaining cycles
         parmcb::detail::NonSpannerEdgesCycleBuilder<Graph, WeightMap,
@@ -368,6 +394,8 @@ private:
                 // add edge to spanner
                 Edge spanner_e = std::get<0>(
                         boost::add_edge(spanner_v, spanner_u, _spanner));
+                boost::put(boost::edge_weight, _spanner, spanner_e,
+                        boost::get(_weight_map, e));
                 _edge_spanner_to_g[spanner_e] = e;
             } else {
                 // record missing edge from spanner
